@@ -27,6 +27,9 @@ func c16Check(o *Out, script []byte, family string) {
 	o.Families[family]++
 	in := hex.EncodeToString(script)
 	class := txscript.GetScriptClass(script)
+	if o.Evaluations%50021 == 3 {
+		o.Sample(fmt.Sprintf("%s (consensus class %v)", in, class))
+	}
 	var cclass txscript.ScriptClass
 	var addrs []massutil.Address
 	var cerr error
